@@ -85,7 +85,7 @@ def run_race(case, prefix):
             # the property's alphabet (DESIGN 9.4, observations)
             sc.wait_until(lambda: len(w.dispatchers) > 0 and w.net.connected, "first connection announced")
         w.stack.broadcastEvent(YowLayerEvent(YowNetworkLayer.EVENT_STATE_DISCONNECT, reason="application"))
-        sc.wait_until(lambda: len(w.dispatchers) > 1 and w.state() == "transport" and w.responders[1].phase == "transport"
+        sc.wait_until(lambda: len(w.responders) > 1 and w.state() == "transport" and w.responders[1].phase == "transport"
                       and not q.qsize(), "session up again")
         for n in sent:
             w.stack.send(H.NodeEntity(n))
